@@ -172,6 +172,26 @@ def rule_own(chk):
         if not end_as or not all(guarded_by(n, lambda e: isinstance(e, ast.Compare) and isinstance(e.ops[0], ast.In) and unparse(e.left) == stv and ctx.try_fold(fm, e.comparators[0])[1] is not None
                                             and set(ctx.try_fold(fm, e.comparators[0])[1]) == {SUCC, FAIL}) for n in end_as):
             problems.append("the end message is not the same-level message whose status is one of the two completed statuses")
+    # level arithmetic that separates own messages from direct child actions
+    lparam = fm.params[2]
+    conj = set()
+    for t in region:
+        if t.kind == "test":
+            e = t.exprs[0]
+            vals = e.values if isinstance(e, ast.BoolOp) and isinstance(e.op, ast.And) else [e]
+            for v in vals:
+                conj.add(unparse(v))
+    pref = None
+    for n in cfg.live:
+        if isinstance(n.ast, ast.Assign) and unparse(n.ast.value) == "%s[:-1]" % lparam:
+            pref = n.ast.targets[0].id
+    lvl = None
+    for n in region:
+        if isinstance(n.ast, ast.Assign) and isinstance(n.ast.value, ast.Subscript) and unparse(n.ast.value).startswith(lv + "["):
+            lvl = n.ast.targets[0].id
+    want = {"%s[:-1] == %s" % (lvl, pref), "len(%s) == len(%s) + 2" % (lvl, pref), "%s[:-2] == %s" % (lvl, pref), "%s[-1] == 1" % lvl}
+    if pref is None or lvl is None or not want <= conj:
+        problems.append("own messages / direct child starts are not told apart by `level[:-1] == prefix` and `len == len(prefix)+2, level[:-2] == prefix, level[-1] == 1` (found %s)" % sorted(c for c in conj if "[" in c or "len" in c))
     # other tasks skipped
     UU = p.fold_global(p.mod("_message"), "TASK_UUID_FIELD")
     uparam = fm.params[1]
